@@ -53,7 +53,7 @@ TraceStart ==
      IN /\ cfg' = c /\ st' = s0 /\ out' = <<>>
         /\ lastIn' = [ev |-> "init"] /\ lastBr' = "Init"
         /\ snd' = {} /\ ccv' = <<>> /\ pb' = <<>> /\ pairAt' = <<>> /\ apairAt' = <<>> /\ pos' = <<>>
-        /\ lastTx' = <<>> /\ hap' = [on |-> FALSE, keys |-> {}] /\ viol' = {}
+        /\ lastTx' = <<>> /\ hap' = [on |-> FALSE, keys |-> {}, axonly |-> TRUE] /\ viol' = {}
         /\ allviol' = allviol \cup bad
         /\ Report(allviol \cup bad, drift, brs)
   /\ l' = l + 1 /\ UNCHANGED <<drift, brs>>
